@@ -110,10 +110,10 @@ def run_impl(fns, kind, names, rows, ops, tmpdir):
                 try:
                     lit = ast.literal_eval(k[3])
                     operand = make_stream(fns, kind, names, rows, tmpdir)[k[1].split(".", 1)[1]][0:][::1]
-                    built = {"<": operand.__lt__, ">": operand.__gt__, "<=": operand.__le__, ">=": operand.__ge__,
-                             "=": operand.__eq__, "!=": operand.__ne__}[k[2]](lit)
-                    if isinstance(built, CE):
-                        key = built
+                    import operator as _op
+                    # (the operators themselves, as a user writes them: `col != v` is whatever Python makes of it)
+                    built = {"<": _op.lt, ">": _op.gt, "<=": _op.le, ">=": _op.ge, "=": _op.eq, "!=": _op.ne}[k[2]](operand, lit)
+                    key = built
                 except (ValueError, SyntaxError, KeyError):
                     pass        # not a literal / not a column: the text form is used
             cur = cur[key]
